@@ -1,23 +1,26 @@
 from cfg.common import FLOAT_ASSUMPTION, NOTE_COMMON
+from cfg.kernels_pre import regen as regen_kernels, KERNEL_THEOREMS, KERNEL_TRUSTED, KERNEL_ASSUMPTION
 
 PROP = {
     'anchors': [('consist/consist_utils.rs', 'solve_positive_traction'), ('consist/consist_utils.rs', 'solve_negative_traction'), ('consist/consist_utils.rs', 'get_pwr_regen_vec'), ('consist/consist_model.rs', 'solve_energy_consumption'), ('consist/consist_model.rs', 'set_cur_pwr_max_out'), ('consist/consist_model.rs', 'set_pwr_dyn_brake_max'), ('consist/locomotive/powertrain/electric_drivetrain.rs', 'set_cur_pwr_regen_max'), ('consist/locomotive/powertrain/electric_drivetrain.rs', 'set_pwr_in_req')],
     'blocks': ['pt'],
-    'proof_modules': ['C10'],
-    'namespaces': ['Altrios.Proofs.C10'],
+    'pre': [regen_kernels],
+    'trusted_extra': [KERNEL_TRUSTED],
+    'proof_modules': ['C10', 'Kernels'],
+    'namespaces': ['Altrios.Proofs.C10', 'Altrios.Proofs.Kernels'],
     'required_theorems': [
         'Altrios.Proofs.C10.C10_sum', 'Altrios.Proofs.C10.C10_bounds_partial', 'Altrios.Proofs.C10.C10_regen',
         'Altrios.Proofs.C10.C10_regen_edrv', 'Altrios.Proofs.C10.C10_battery_first', 'Altrios.Proofs.C10.C10_no_panic',
         'Altrios.Proofs.C10.C10_end_to_end', 'Altrios.Proofs.C10.C10_simstep',
         'Altrios.Proofs.C10.C10_simstep_counterexample',
-    ],
+    ] + KERNEL_THEOREMS,
     'nontrivial_stats': ['pt.consist.traction_', 'pt.consist.braking_'],
     'rule': 'each evaluation is one whole consist step (set_pwr_aux, set_cur_pwr_max_out, solve_energy_consumption) or one '
             'of its parts, on consists of 1-8 units in any mix/order under both policies, demand chosen relative to the '
             'limits just published; non-trivial = accepted step with non-zero traction or braking',
     'assumptions': [FLOAT_ASSUMPTION,
                     'per-unit traction bounds are proved under 0 <= published pwr_out_max of every unit: FORCED, the code does '
-                    'not guarantee it (C10_simstep_counterexample; known finding C10-bel-negative-traction-limit)'],
+                    'not guarantee it (C10_simstep_counterexample; known finding C10-bel-negative-traction-limit)'] + [KERNEL_ASSUMPTION],
 }
 
 TEXT = {
